@@ -567,18 +567,21 @@ func (e *env) runDKG(tier string) {
 	}
 	// the F2 regression witness first (corpus), then a seeded shuffle so that sequences vary
 	e.rng.Shuffle(len(jobs), func(i, j int) { jobs[i], jobs[j] = jobs[j], jobs[i] })
-	for i, j := range jobs {
-		if j.target == 0 && j.id == "alpha" && strings.HasPrefix(j.g.name, "dkg/full/") && j.meta == "ok" {
-			jobs[0], jobs[i] = jobs[i], jobs[0]
-			break
+	front := func(pos int, pred func(job) bool) {
+		for i, j := range jobs {
+			if i >= pos && pred(j) {
+				jobs[pos], jobs[i] = jobs[i], jobs[pos]
+				return
+			}
 		}
 	}
-	for i, j := range jobs {
-		if j.target == 1 && j.id == "exec" && strings.HasPrefix(j.g.name, "dkg/full/deal-garbage") && j.meta == "ok" {
-			jobs[1], jobs[i] = jobs[i], jobs[1]
-			break
-		}
-	}
+	// corpus: a plain packet first (any wedge here is not about the Dkg variant), then the F2 witness
+	front(0, func(j job) bool { return j.target == 0 && j.id == "alpha" && j.g.name == "accept-leader" && j.meta == "ok" })
+	front(1, func(j job) bool { return j.target == 0 && j.id == "alpha" && strings.HasPrefix(j.g.name, "dkg/full/") && j.meta == "ok" })
+	front(2, func(j job) bool { return j.target == 1 && j.id == "alpha" && j.g.name == "accept-leader" && j.meta == "ok" })
+	front(3, func(j job) bool {
+		return j.target == 1 && j.id == "exec" && strings.HasPrefix(j.g.name, "dkg/full/deal-garbage") && j.meta == "ok"
+	})
 	if tier != "thorough" && len(jobs) > 420 {
 		jobs = jobs[:420]
 	}
@@ -638,7 +641,7 @@ func (e *env) runDKG(tier string) {
 		e.rep.Sample(name+" -> "+clsName[cls], 6)
 		// M
 		if cls == clsTimeout {
-			class := "C14-call-timeout"
+			class := "C14-packet-wedges"
 			if strings.HasPrefix(j.g.name, "dkg/") {
 				class = "C14-packet-dkg-variant-wedges"
 			}
@@ -656,8 +659,12 @@ func (e *env) runDKG(tier string) {
 			ok = e.probeProcess(name)
 		}
 		if !ok {
-			if cls != clsTimeout && strings.HasPrefix(j.g.name, "dkg/") {
-				e.rep.Fail("C14-packet-dkg-variant-wedges", "after a gossip packet carrying the Dkg variant the probes are not answered", name)
+			if cls != clsTimeout {
+				class := "C14-packet-wedges"
+				if strings.HasPrefix(j.g.name, "dkg/") {
+					class = "C14-packet-dkg-variant-wedges"
+				}
+				e.rep.Fail(class, "after the gossip packet the probes are not answered", name)
 			}
 			e.wedged[j.target] = true
 			continue
@@ -994,7 +1001,7 @@ func Run(outDir string, seed int64, tier string) error {
 	cancel()
 	rep.Rule = "every oneof variant of GossipPacket / DKGPacket bundles with nil, empty, short and oversize fields x DKG record states {fresh, proposed, executing, left, left without leader, complete, unknown id} on DrandDaemon.Packet and dkg.Process.Packet (seeded order, probes after every call), BroadcastDKG shapes, partial beacons (rounds x lengths x indices), routed endpoints x metadata kinds (nil, empty, ids, hashes, oversize), HTTP hash / round parameters, loopback gRPC witnesses; distinct = distinct (endpoint, state, shape); non-trivial = the request carries at least one field"
 	req := append([]string{"From DV Require Import Model.Routing Model.Robust Corr.RobustCorr.", "Open Scope Z_scope."}, e.in.Defs()...)
-	if err := rep.Shard(outDir, "cases_robust", req, "kcase", "mismatches", e.cases, e.descr, 1500); err != nil {
+	if err := rep.Shard(outDir, "cases_robust", req, "kcase", "mismatches", e.cases, e.descr, 250); err != nil {
 		return err
 	}
 	return rep.Write(outDir)
